@@ -60,6 +60,8 @@ type World struct {
 	// FailFastUnknown: a block that no peer of the world holds fails at once
 	// (a fetch that times out) instead of blocking.
 	FailFastUnknown bool
+	// PeersDelay, when set, delays every topic.Peers() call (network-side latency).
+	PeersDelay func() time.Duration
 	tmp             string
 	fetches         int64
 	closed          bool
